@@ -180,6 +180,25 @@ func (s *syncSource) RequestBlock(ctx context.Context, hash bitcoin.Hash32, hand
 		})
 		return node, nil
 	}
+	if strings.HasPrefix(behaviour, "hold") {
+		// "hold<seconds>": the block arrives at once and in full, but the end of the stream is only
+		// seen that much later (the download has handled every transaction and waits for the
+		// stream to end) - time for a second source to finish and for this one to be cancelled
+		var secs int
+		fmt.Sscanf(behaviour, "hold%d", &secs)
+		node.mu.Lock()
+		node.registered = true
+		node.called = true
+		node.mu.Unlock()
+		vsched.GoNamed("holding-node-"+label, func() {
+			ch := make(chan *wire.MsgTx, 2)
+			vsched.Send(ch, b.tx)
+			vsched.GoNamed("holding-handler-"+label, func() { handler(bg, b.header, 1, ch) })
+			vsched.Sleep(time.Duration(secs) * time.Second)
+			vsched.Close(ch)
+		})
+		return node, nil
+	}
 	slowFor := 150 * time.Second
 	if strings.HasPrefix(behaviour, "slow") && behaviour != "slow" {
 		// "slow<seconds>": the same with another delay
@@ -405,6 +424,10 @@ func syncScenario(c syncConfig) func() func() []string {
 						var secs int
 						fmt.Sscanf(b, "late%d", &secs)
 						vsched.Sleep(time.Duration(secs+10) * time.Second)
+					} else if strings.HasPrefix(b, "hold") {
+						var secs int
+						fmt.Sscanf(b, "hold%d", &secs)
+						vsched.Sleep(time.Duration(secs+10) * time.Second)
 					} else if strings.HasPrefix(b, "slow") && b != "slow" {
 						var secs int
 						fmt.Sscanf(b, "slow%d", &secs)
@@ -619,6 +642,10 @@ func c05Scenarios(thorough bool) []*scenario {
 	// when another source is asked and serves the block
 	add(syncConfig{length: 2, start: 1, script: map[string][]string{"a1": {"late150"}}}, 0)
 	add(syncConfig{length: 2, start: 1, concurrent: 2, script: map[string][]string{"a1": {"late150", "late150"}}}, 0)
+	// a source that delivers every transaction at once but whose stream only ends 12 s later: the
+	// second source (asked after the request delay) finishes first, the first download is cancelled
+	// while it waits for the end of its stream, and must not commit the block when the stream ends
+	add(syncConfig{length: 2, start: 1, concurrent: 2, script: map[string][]string{"a1": {"hold12"}}}, 0, 1)
 	// a download that started and then stalls for more than the one-hour download timeout: it is
 	// given up, another source serves the block, and the stalled stream ends 4000 s after it began
 	add(syncConfig{length: 2, start: 1, script: map[string][]string{"a1": {"slow4000"}}}, 0)
